@@ -253,6 +253,13 @@ def run(res, build):
     from .. import emitunit
 
     emitunit.run(res, res.tier)     # unit level: real Row/Cell/TextContent emitters vs Model/Emit.lean, byte-exact
+    from .. import encodecorr
+
+    # document level: the whole single-section encoder model (Model/Encode.lean = composition of the pagination,
+    # layout, border, attribute, colour, width, group_by, conversion, escape and emitter models) must return the
+    # very string rtf_encode() returns
+    outs = encodecorr.run(res, res.tier)
+    res.evaluations += len(outs)
     n = 420 if res.tier == "quick" else 6000
     jobs = [(res.seed, k, None) for k in range(n)]
     cdir = common.CORPUS / "C01"
